@@ -374,7 +374,15 @@ impl Check for C09Check {
                 0 => ops.push(json!({"k": "restart", "mode": "warm"})),
                 1 => ops.push(json!({"k": "restart", "mode": "warm", "runner": o.bool()})),
                 2 | 3 => ops.push(json!({"k": "restart", "mode": "cold"})),
-                4 => ops.push(json!({"k": "save", "fail": o.chance(1, 4)})),
+                4 => {
+                    let fail = o.chance(1, 4);
+                    ops.push(json!({"k": "save", "fail": fail}));
+                    if fail && o.bool() {
+                        // the retry right after a refused save, with nothing changed in between, must reach the medium
+                        ops.push(json!({"k": "save", "fail": false}));
+                        ops.push(json!({"k": "power_cycle"}));
+                    }
+                }
                 5 => ops.push(json!({"k": "power_cycle"})),
                 6 => ops.push(json!({"k": "access_write", "name": *o.pick(&["A1", "A2", "A3"]), "val": o.range(-100, 100)})),
                 7 => ops.push(json!({"k": "cycle", "dt": 10_000_000, "in_w": 77, "in_b": false})), // value fault
